@@ -71,7 +71,10 @@ type PkgSpec struct {
 	DocTags []Tag      `json:"doc_tags,omitempty"`
 	DocText []string   `json:"doc_text,omitempty"`
 	Files   []*SrcFile `json:"files"`
-	Anchor  string     `json:"anchor"` // an exported struct type other packages refer to
+	// DupDocTags: package-level tags repeated, with identical values, in the package doc of the second
+	// file (two files agreeing on a tag leave no doubt about its effective value).
+	DupDocTags []Tag  `json:"dup_doc_tags,omitempty"`
+	Anchor     string `json:"anchor"` // an exported struct type other packages refer to
 	InSub   bool       `json:"in_sub,omitempty"`
 }
 
@@ -286,6 +289,12 @@ func (p *PkgSpec) HasShadow() (local, typeparam bool) {
 func (m *ModuleSpec) FileSource(pi int, f *SrcFile, first bool) string {
 	p := m.Pkgs[pi]
 	var sb strings.Builder
+	if !first && len(p.Files) > 1 && f == p.Files[1] && len(p.DupDocTags) > 0 {
+		sb.WriteString("// Package " + p.Name + " (second file).\n")
+		for _, t := range p.DupDocTags {
+			sb.WriteString(t.Line() + "\n")
+		}
+	}
 	if first {
 		for _, l := range p.DocText {
 			sb.WriteString("// " + l + "\n")
